@@ -2,6 +2,7 @@ CONSTANTS
   Dev = {}
   Alphabet <- AlphaEsc
   MaxLen = 4
+  Prune = FALSE
   DepthProbe = {256}
 INIT MInit
 NEXT MNext
